@@ -15,45 +15,128 @@ inductive Forall2 {α β : Type} (R : α → β → Prop) : List α → List β 
 def EnvOK (M : Model) (bd : List Ty) (env : List Nat) : Prop :=
   Forall2 (fun T v => v < M.size T) bd env
 
-theorem Model.size_pos (M : Model) (T : Ty) : 0 < M.size T := by
-  sorry
+theorem Model.conSize_pos (M : Model) (n : String) (ss : List Nat) (h : ∀ s ∈ ss, 0 < s) :
+    0 < M.conSize n ss := by
+  unfold Model.conSize
+  split
+  · omega
+  · rename_i a b
+    exact Nat.pow_pos (h b (by simp))
+  · omega
+
+mutual
+theorem Model.size_pos_aux (M : Model) : ∀ T : Ty, 0 < M.size T
+  | .stvar n => by simp [Model.size]
+  | .tvar n => by simp [Model.size]
+  | .con n args => by
+    simp only [Model.size]
+    exact Model.conSize_pos M n _ (Model.sizeList_pos_aux M args)
+theorem Model.sizeList_pos_aux (M : Model) : ∀ l : List Ty, ∀ s ∈ M.sizeList l, 0 < s
+  | [] => by simp [Model.sizeList]
+  | a :: as => by
+    intro s hs
+    simp only [Model.sizeList, List.mem_cons] at hs
+    rcases hs with rfl | hs
+    · exact Model.size_pos_aux M a
+    · exact Model.sizeList_pos_aux M as s hs
+end
+
+theorem Model.size_pos (M : Model) (T : Ty) : 0 < M.size T := Model.size_pos_aux M T
 
 theorem Model.size_bool (M : Model) : M.size Ty.bool = 2 := by
-  sorry
+  simp [Ty.bool, Model.size, Model.sizeList, Model.conSize]
 
 theorem Model.size_fn (M : Model) (a b : Ty) : M.size (Ty.fn a b) = M.size b ^ M.size a := by
-  sorry
+  simp [Ty.fn, Model.size, Model.sizeList, Model.conSize]
 
 /-! ### alpha-equivalence -/
 
-theorem Term.aeq_refl (t : Term) : Term.aeq t t = true := by
-  sorry
-
-theorem Term.aeq_symm (a b : Term) (h : Term.aeq a b = true) : Term.aeq b a = true := by
-  sorry
-
-theorem Term.aeq_trans (a b c : Term) (h1 : Term.aeq a b = true) (h2 : Term.aeq b c = true) :
-    Term.aeq a c = true := by
-  sorry
-
 /-- `==` on terms is equality of name-erased terms -/
 theorem Term.aeq_iff_erase (a b : Term) : Term.aeq a b = true ↔ Term.erase a = Term.erase b := by
-  sorry
+  induction a generalizing b with
+  | svar n T => cases b <;> simp [Term.aeq, Term.erase]
+  | var n T => cases b <;> simp [Term.aeq, Term.erase]
+  | const n T => cases b <;> simp [Term.aeq, Term.erase]
+  | comb f a ihf iha => cases b <;> simp [Term.aeq, Term.erase, ihf, iha]
+  | abs x T c ih => cases b <;> simp [Term.aeq, Term.erase, ih]
+  | bound i => cases b <;> simp [Term.aeq, Term.erase]
+
+theorem Term.aeq_refl (t : Term) : Term.aeq t t = true :=
+  (Term.aeq_iff_erase t t).2 rfl
+
+theorem Term.aeq_symm (a b : Term) (h : Term.aeq a b = true) : Term.aeq b a = true :=
+  (Term.aeq_iff_erase b a).2 ((Term.aeq_iff_erase a b).1 h).symm
+
+theorem Term.aeq_trans (a b c : Term) (h1 : Term.aeq a b = true) (h2 : Term.aeq b c = true) :
+    Term.aeq a c = true :=
+  (Term.aeq_iff_erase a c).2
+    (((Term.aeq_iff_erase a b).1 h1).trans ((Term.aeq_iff_erase b c).1 h2))
 
 theorem Term.getType_aeq (a b : Term) (h : Term.aeq a b = true) (bd : List Ty) :
     Term.getType bd a = Term.getType bd b := by
-  sorry
+  induction a generalizing b bd with
+  | svar n T => cases b <;> simp_all [Term.aeq, Term.getType]
+  | var n T => cases b <;> simp_all [Term.aeq, Term.getType]
+  | const n T => cases b <;> simp_all [Term.aeq, Term.getType]
+  | comb f a ihf iha =>
+    cases b <;> simp [Term.aeq] at h
+    rename_i g c
+    simp only [Term.getType, ihf g h.1 bd]
+  | abs x T c ih =>
+    cases b <;> simp [Term.aeq] at h
+    rename_i y S d
+    obtain ⟨rfl, h2⟩ := h
+    simp only [Term.getType, ih d h2 (T :: bd)]
+  | bound i => cases b <;> simp_all [Term.aeq, Term.getType]
 
 theorem Term.checkedGetType_aeq (a b : Term) (h : Term.aeq a b = true) (bd : List Ty) :
     Term.checkedGetType bd a = Term.checkedGetType bd b := by
-  sorry
+  induction a generalizing b bd with
+  | svar n T => cases b <;> simp_all [Term.aeq, Term.checkedGetType]
+  | var n T => cases b <;> simp_all [Term.aeq, Term.checkedGetType]
+  | const n T => cases b <;> simp_all [Term.aeq, Term.checkedGetType]
+  | comb f a ihf iha =>
+    cases b <;> simp [Term.aeq] at h
+    rename_i g c
+    simp only [Term.checkedGetType, ihf g h.1 bd, iha c h.2 bd]
+  | abs x T c ih =>
+    cases b <;> simp [Term.aeq] at h
+    rename_i y S d
+    obtain ⟨rfl, h2⟩ := h
+    simp only [Term.checkedGetType, ih d h2 (T :: bd)]
+  | bound i => cases b <;> simp_all [Term.aeq, Term.checkedGetType]
 
 theorem sem_aeq (M : Model) (ρ : Valuation) (a b : Term) (h : Term.aeq a b = true)
     (bd : List Ty) (env : List Nat) : sem M ρ bd env a = sem M ρ bd env b := by
-  sorry
+  induction a generalizing b bd env with
+  | svar n T => cases b <;> simp_all [Term.aeq, sem]
+  | var n T => cases b <;> simp_all [Term.aeq, sem]
+  | const n T => cases b <;> simp_all [Term.aeq, sem]
+  | comb f a ihf iha =>
+    cases b <;> simp [Term.aeq] at h
+    rename_i g c
+    simp only [sem, ihf g h.1 bd env, iha c h.2 bd env, Term.getType_aeq f g h.1 bd]
+  | abs x T c ih =>
+    cases b <;> simp [Term.aeq] at h
+    rename_i y S d
+    obtain ⟨rfl, h2⟩ := h
+    simp only [sem, Term.getType_aeq c d h2 (T :: bd), ih d h2]
+  | bound i => cases b <;> simp_all [Term.aeq, sem]
 
 theorem sigOK_aeq (a b : Term) (h : Term.aeq a b = true) : sigOK a = sigOK b := by
-  sorry
+  induction a generalizing b with
+  | svar n T => cases b <;> simp_all [Term.aeq, sigOK]
+  | var n T => cases b <;> simp_all [Term.aeq, sigOK]
+  | const n T => cases b <;> simp_all [Term.aeq, sigOK]
+  | comb f a ihf iha =>
+    cases b <;> simp [Term.aeq] at h
+    rename_i g c
+    simp only [sigOK, ihf g h.1, iha c h.2]
+  | abs x T c ih =>
+    cases b <;> simp [Term.aeq] at h
+    rename_i y S d
+    simp only [sigOK, ih d h.2]
+  | bound i => cases b <;> simp_all [Term.aeq, sigOK]
 
 /-! ### typing -/
 
